@@ -164,3 +164,49 @@ def populate_full(c, ns, n_notes=1, prefix='', section=True, tempo=True,
   ns.sequence_metadata.genre.append('g')
   ns.subsequence_info.start_time_offset = c.real(P + 'sub_s', 0)
   return {'notes': notes, 'tt': tt, 'events': ev}
+
+
+def scalar_fields(msg):
+  """Names of the singular scalar fields of a message (shim or real)."""
+  cls = type(msg)
+  if hasattr(cls, '_fields') and isinstance(cls._fields, dict):
+    return sorted(n for n, f in cls._fields.items()
+                  if not f.repeated and f.kind != 'msg')
+  out = []
+  for f in msg.DESCRIPTOR.fields:
+    rep = f.is_repeated if hasattr(f, 'is_repeated') else (f.label == 3)
+    if not rep and f.message_type is None:
+      out.append(f.name)
+  return sorted(out)
+
+
+def msg_key(msg):
+  return tuple(getattr(msg, n) for n in scalar_fields(msg))
+
+
+_SEQ_LISTS = ('notes', 'tempos', 'time_signatures', 'key_signatures',
+              'control_changes', 'pitch_bends', 'text_annotations',
+              'section_annotations')
+
+
+def seq_bag_eq(c, a, b, lists=_SEQ_LISTS):
+  """Equality of two NoteSequences as bags: every repeated field compared as a
+  multiset, scalar top-level fields compared directly."""
+  conds = [c.eq(a.total_time, b.total_time),
+           c.eq(a.total_quantized_steps, b.total_quantized_steps),
+           c.eq(a.ticks_per_quarter, b.ticks_per_quarter),
+           c.eq(a.quantization_info.steps_per_quarter,
+                b.quantization_info.steps_per_quarter),
+           c.eq(a.quantization_info.steps_per_second,
+                b.quantization_info.steps_per_second),
+           c.eq(a.subsequence_info.start_time_offset,
+                b.subsequence_info.start_time_offset),
+           c.eq(a.subsequence_info.end_time_offset,
+                b.subsequence_info.end_time_offset)]
+  for name in lists:
+    la, lb = list(getattr(a, name)), list(getattr(b, name))
+    if len(la) != len(lb):
+      return False
+    conds.append(multiset_eq(c, [msg_key(m) for m in la],
+                             [(True, msg_key(m)) for m in lb]))
+  return c.And(conds)
